@@ -13,7 +13,7 @@ MANIFEST = {
     "engine": "qv-native+qv-gen",
     "category": "proof",
     "technique": "contracts on swap, SWAP.apply and importance_sampling_weight with callees stubbed by opaque specs; purity lemma over symbolic psi / rho; obligations by polynomial normal form and z3",
-    "text": "swap is proved to exchange exactly the columns of the region (int / list / array / tensor / empty encodings) on clones, leaving the batch untouched; SWAP.apply is executed with importance_sampling_weight replaced by an opaque weight table and must return Re[w(s'_i,s_i) w(s'_(i-1),s_(i-1))] with the cyclic partner i-1 for batches of 1..4 distinct rows; importance_sampling_weight is numerator/denominator. The lemma sum_{s1,s2} p(s1)p(s2) apply([s1;s2])[0] == tr(rho_A^2) (explicit partial trace) is discharged for arbitrary symbolic pure and Hermitian mixed states and all 2^n regions, plus purity symmetry A <-> complement and the trivial regions for pure states; non-negativity of S2 is certified for every region by the identity (tr rho_A)^2 - tr rho_A^2 == 2 * sum of squared moduli of the 2x2 minors of the (purified) amplitude matrix. Additionally (front end G) SWAP.apply on a positive wavefunction with region {0,2} is executed on a batch of symbolic size and chain of symbolic length: every row is paired with its cyclic neighbour in the whole batch and the value is psi(s1')psi(s2')/(psi(s1)psi(s2)), for every batch size and length >= 3.",
+    "text": "swap is proved to exchange exactly the columns of the region (int / list / array / tensor / empty encodings) on clones, leaving the batch untouched; SWAP.apply is executed with importance_sampling_weight replaced by an opaque weight table and must return Re[w(s'_i,s_i) w(s'_(i-1),s_(i-1))] with the cyclic partner i-1 for batches of 1..4 distinct rows; importance_sampling_weight is numerator/denominator. The lemma sum_{s1,s2} p(s1)p(s2) apply([s1;s2])[0] == tr(rho_A^2) (explicit partial trace) is discharged for arbitrary symbolic pure and Hermitian mixed states and all 2^n regions, plus purity symmetry A <-> complement and the trivial regions for pure states; non-negativity of S2 is certified for every region by the identity (tr rho_A)^2 - tr rho_A^2 == 2 * sum of squared moduli of the 2x2 minors of the (purified) amplitude matrix. Additionally (front end G) SWAP.apply with region {0,2} is executed for all three kinds of state on a batch of symbolic size and chain of symbolic length: every row is paired with its cyclic neighbour in the whole batch and the value is Re of the product of the two importance weights (psi(s')/psi(s), rho(s',s)/p(s)), for every batch size and length >= 3.",
     "note": "S2 >= 0 is certified by the Binet-Cauchy sum-of-squares identity for every enumerated region (pure states n <= 3, mixed states through a rank-2 purification n <= 2); for larger sizes / ranks it rests on tr M^2 <= (tr M)^2 for PSD M (bounded driver); floats as reals; batch sizes 1..4",
 }
 EXPLANATION = "opaque weight table for the stubbed callee; symbolic complex amplitudes / Hermitian matrix entries for the lemma"
